@@ -123,17 +123,24 @@ def run_texts(rep, texts, tag):
     for case, o in zip(cases, obs):
         steps = o.get("steps")
         for si, (k, li) in enumerate(case["_owners"]):
-            st = steps[si] if steps and si < len(steps) else {"outcome": o.get("outcome", "crash"), "panic": o.get("panic")}
+            st = steps[si] if steps and si < len(steps) else {"outcome": o.get("outcome", "crash"), "panic": o.get("panic"), "why": o.get("why"),
+                                                              "whole_batch": len(case["_owners"]) > 1}
             if li is None:
                 whole[k] = st
             else:
                 alone[(k, li)] = st
-    # a panic ends its batch: re-run what was skipped, alone
-    redo = [k for k, st in whole.items() if st.get("outcome") == "skipped"]
+    # a panic ends its batch and a hang loses its whole batch: re-run those texts alone, so that the line that panics or hangs is the
+    # one that is reported.  Once a run has seen 24 hangs the harness starts nothing more (every further hang costs a full timeout):
+    # what was not started is left out of the trace and counted in the evidence - the hangs already seen are violations enough.
+    redo = [k for k, st in whole.items() if (st.get("outcome") == "skipped" and st.get("why") != "too many hangs")
+            or (st.get("outcome") in ("hang", "crash") and st.get("whole_batch"))]
     if redo:
         more = run_texts_raw([texts[k] for k in redo], tag + ".redo")
         for k, st in zip(redo, more):
             whole[k] = st
+    not_run = {k for k, st in whole.items() if st.get("outcome") == "skipped" and st.get("why") == "too many hangs"}
+    if not_run:
+        rep.extra["not_started_after_24_hangs"] = rep.extra.get("not_started_after_24_hangs", 0) + len(not_run)
 
     def slot_list(st):
         ss = proj.slots_of_step(st)
@@ -147,6 +154,8 @@ def run_texts(rep, texts, tag):
     events, index = [], []
     last_cfg = None
     for k, (t, lang, cfg) in enumerate(texts):
+        if k in not_run:
+            continue
         st = whole.get(k, {"outcome": "missing"})
         lines = re.split(r"\r\n|\n", t)
         status, slots = slot_list(st)
@@ -196,7 +205,7 @@ def run_texts(rep, texts, tag):
 def run_texts_raw(texts, tag):
     cases = [{"id": "%s.%d" % (tag, i), "cfg": cfg, "steps": [{"op": "execute", "lang": lang, "text": t}]} for i, (t, lang, cfg) in enumerate(texts)]
     obs = run_harness_stable_day(cases, tag, jobs=8, timeout_s=30)
-    return [(o.get("steps") or [{"outcome": o.get("outcome", "crash"), "panic": o.get("panic")}])[0] for o in obs]
+    return [(o.get("steps") or [{"outcome": o.get("outcome", "crash"), "panic": o.get("panic"), "why": o.get("why")}])[0] for o in obs]
 
 
 def run(rep):
